@@ -29,7 +29,9 @@ Verdict(e) ==
   ELSE "OK"
 
 Drift(e) ==
-  /\ e.tape # <<>>
+  /\ e.tape # <<>> /\ \A j \in DOMAIN e.tape : e.tape[j] \in Selectors
+  /\ ~\E y \in SubSchemas(e.s) : y.t = "str" /\ IsSome(y.pattern) /\ Get(y.pattern).k = "pat"
+                                   /\ RHasNeg(Get(y.pattern).rx)
   /\ LET m == Gen(e.s, e.tape, 0) IN
      IF ~m.ok THEN m.exc # "UNMODELLED" /\ m.exc # e.exc
      ELSE e.exc # "" \/ (e.rep /\ m.v # Get(e.v) /\
